@@ -59,10 +59,10 @@ def gen_domain(r, rng, want_boundary=None, allow_tf=True, allow_prod=True, p_par
     # dependent / independent product with an interval factor
     c = r.random() if allow_prod else 1.0
     n_bool = sum(1 for k_ in G.kinds(dom) if k_ in ("union", "cut", "inter"))
-    if G.is_boundary(dom) and n_bool > 1:
-        # a dependent product samples its first factor with n=1 for every row; on boundaries of
-        # nested Boolean expressions the library's nested one-point rejection loops multiply
-        # their (legitimate) cost beyond any sensible draw budget -> not generated
+    if n_bool > 1:
+        # a product samples its first factor with n=1 for every row; on nested Boolean
+        # expressions the library's nested one-point rejection loops multiply their
+        # (legitimate) cost beyond any sensible draw budget -> not generated
         c = 1.0
     if pvar and c < 0.25:
         dom = {"k": "prod", "a": dom, "b": {"k": "iv", "var": "t", "a": 0.0, "b": 1.0}}
